@@ -17,6 +17,7 @@ import (
 	"strings"
 	"sync"
 	"sync/atomic"
+	"syscall"
 	"testing"
 	"time"
 
@@ -40,6 +41,7 @@ import (
 // compared after every successful call.
 
 var c15AssetZ = fixc.Hash("c15-asset-z")
+
 
 // ---------------------------------------------------------------- key helpers
 
@@ -329,6 +331,8 @@ type c15Env struct {
 	baseTotal  map[crypto.Hash]*big.Int
 	onChain    [3]map[crypto.Hash]bool
 	lastKey    string
+	base       map[string]string // dump at the end of the setup
+	baseKey    string
 }
 
 func (e *c15Env) acct() []*common.Address { a := e.Acct; return []*common.Address{&a} }
@@ -403,6 +407,48 @@ func (e *c15Env) sealSetup() {
 		e.baseTotal[a] = c15TotalOf(d, a)
 	}
 	e.lastKey = c15DumpHash(d)
+	e.base, e.baseKey = d, e.lastKey
+}
+
+// reset puts the snapshot DB back to the dump taken at the end of the setup
+// (raw deletes/sets of exactly the differing keys; WriteSnapshot touches only
+// this DB) and verifies that the dump is byte-identical again. Used by the BFS
+// to avoid rebuilding a ledger per history; the state of the exploration IS
+// the dump.
+func (e *c15Env) reset(c *verifmc.Check) {
+	cur := e.L.Store.VerifDump("")
+	err := e.L.Store.snapshotsDB.Update(func(txn *badger.Txn) error {
+		for k := range cur {
+			if _, ok := e.base[k]; !ok {
+				kb, _ := hex.DecodeString(k)
+				if err := txn.Delete(kb); err != nil {
+					return err
+				}
+			}
+		}
+		for k, v := range e.base {
+			if cv, ok := cur[k]; !ok || cv != v {
+				kb, _ := hex.DecodeString(k)
+				vb, _ := hex.DecodeString(v)
+				if err := txn.Set(kb, vb); err != nil {
+					return err
+				}
+			}
+		}
+		return nil
+	})
+	if err != nil {
+		panic(err)
+	}
+	if got := c15DumpHash(e.L.Store.VerifDump("")); got != e.baseKey {
+		c.Require(false, "ledger reset did not restore the setup dump")
+		panic("c15: reset failed")
+	}
+	e.firstFinal = map[crypto.Hash]crypto.Hash{}
+	for i := range e.onChain {
+		e.onChain[i] = map[crypto.Hash]bool{}
+	}
+	e.lastKey = e.baseKey
 }
 
 func c15TotalOf(d map[string]string, a crypto.Hash) *big.Int {
@@ -646,6 +692,7 @@ func c15BuildSel(dir string, sel []string, banded bool) *c15Env {
 		w0 := e.make("W", "w0", nil, nil)
 		e.setupFinalize(w0.Tx)
 		e.w0 = &w0.H
+		delete(e.bodies, w0.H) // part of the setup, not of the pool
 	}
 	for pass := 0; pass < 2; pass++ {
 		for _, s := range sel {
@@ -1117,11 +1164,36 @@ func c15PartHistories(c *verifmc.Check, name string, classes []string, maxSub, d
 		}
 		return fmt.Sprintf("chain%d{%s}", slot+1, strings.Join(cl, ","))
 	}
+	// one ledger per worker, reset to the setup dump between histories
+	envs := make([]*c15Env, c.Workers()+1)
+	var envMu sync.Mutex
+	refKey := ""
+	defer func() {
+		for _, e := range envs {
+			if e != nil {
+				e.L.Close()
+			}
+		}
+	}()
 	b := &verifmc.BFS[*c15Env]{
 		C: c, NumEvents: 3 * len(subs), MaxDepth: depth,
 		EventName: evName,
-		New:       func(int) *c15Env { return c15BuildSel("", classes, false) },
-		Close:     func(e *c15Env) { e.L.Close() },
+		New: func(w int) *c15Env {
+			if envs[w] != nil {
+				envs[w].reset(c)
+				return envs[w]
+			}
+			e := c15BuildSel("", classes, false)
+			envMu.Lock()
+			if refKey == "" {
+				refKey = e.baseKey
+			}
+			c.Require(refKey == e.baseKey, "nondeterministic ledger setup: %s vs %s", refKey, e.baseKey)
+			envMu.Unlock()
+			envs[w] = e
+			return e
+		},
+		Close: func(e *c15Env) {},
 		Key:       func(e *c15Env) string { return name + ":" + e.lastKey },
 		Apply: func(e *c15Env, ev int, replaying bool, report func(key, desc string)) bool {
 			slot, si := ev/len(subs), ev%len(subs)
@@ -1226,8 +1298,16 @@ func TestMC_C15(t *testing.T) {
 	badger.VerifHook = c15Hook
 	defer func() { badger.VerifHook = nil }()
 
+	t0, cpu0 := time.Now(), c15CPU()
+	lap := func(what string) {
+		c.Set("wall_s_"+what, fmt.Sprintf("%.1f", time.Since(t0).Seconds()))
+		c.Set("cpu_s_"+what, fmt.Sprintf("%.1f", c15CPU()-cpu0))
+		t0, cpu0 = time.Now(), c15CPU()
+	}
 	c15PartBatches(c)
+	lap("batches")
 	c15PartLarge(c)
+	lap("large")
 	full := []string{"D", "T1", "W", "C", "M", "P", "P2", "N", "N2", "Xg", "U"}
 	small := []string{"D", "T1", "W", "C", "P", "Xg"}
 	if c.Thorough() {
@@ -1236,9 +1316,14 @@ func TestMC_C15(t *testing.T) {
 	} else {
 		c15PartHistories(c, "bfs_full_sub2_d2", full, 2, 2)
 	}
+	lap("histories")
 	c15PartCut(c, t)
+	lap("cut")
 
-	// vacuity guards
+	// vacuity guards (meaningless when the wall-clock cap cut the run short)
+	if c.Expired("vacuity guards") {
+		return
+	}
 	need := func(prefix string) {
 		var n int64
 		for _, o := range c15OutcomeNames(c) {
@@ -1263,6 +1348,16 @@ func TestMC_C15(t *testing.T) {
 	for _, l := range []string{"Xg-first", "Xg-middle", "Xg-last", "Xa-first", "Xa-middle", "Xa-last"} {
 		need("large:" + l + ":reject:error:")
 	}
+}
+
+// c15CPU is the process CPU time (user+sys) in seconds: the machine-load
+// independent cost measure reported per part.
+func c15CPU() float64 {
+	var ru syscall.Rusage
+	if err := syscall.Getrusage(syscall.RUSAGE_SELF, &ru); err != nil {
+		return 0
+	}
+	return float64(ru.Utime.Sec+ru.Stime.Sec) + float64(ru.Utime.Usec+ru.Stime.Usec)/1e6
 }
 
 func c15OutcomeNames(c *verifmc.Check) []string {
